@@ -550,9 +550,20 @@ func ruleG1b(r *Run) {
 			continue
 		}
 		info := pkg.TypesInfo
-		// retried := <ctx>.GetInt("retried") + 1 ; <ctx>.Set("retried", retried)
-		var robj types.Object
+		// retried := <ctx>.GetInt("retried") + 1 ; <ctx>.Set("retried", retried) - in the function itself or in a helper it calls
+		bodies := []*ast.BlockStmt{fd.Body}
 		ast.Inspect(fd.Body, func(n ast.Node) bool {
+			if c, ok := n.(*ast.CallExpr); ok {
+				if d, dpkg := p.calleeDecl(info, c); d != nil && dpkg == pkg {
+					bodies = append(bodies, d.Body)
+				}
+			}
+			return true
+		})
+		okPair := false
+		for _, body := range bodies {
+		var robj types.Object
+		ast.Inspect(body, func(n ast.Node) bool {
 			as, ok := n.(*ast.AssignStmt)
 			if !ok || len(as.Lhs) != 1 || len(as.Rhs) != 1 {
 				return true
@@ -573,7 +584,7 @@ func ruleG1b(r *Run) {
 			return true
 		})
 		stored := false
-		ast.Inspect(fd.Body, func(n ast.Node) bool {
+		ast.Inspect(body, func(n ast.Node) bool {
 			if call, ok := n.(*ast.CallExpr); ok && methodName(call) == "Set" && len(call.Args) == 2 {
 				if lit, ok := call.Args[0].(*ast.BasicLit); ok && lit.Value == `"retried"` && identObj(info, call.Args[1]) == robj && robj != nil {
 					stored = true
@@ -581,7 +592,11 @@ func ruleG1b(r *Run) {
 			}
 			return true
 		})
-		r.Check(robj != nil && stored, key, fd.Pos(), `retried := GetInt("retried") + 1; Set("retried", retried)`, "OnRetry no longer increments the call's `retried` item by exactly one and stores it back: the budget `retried < retry` is never reached (endless retries) or skipped")
+		if robj != nil && stored {
+			okPair = true
+		}
+		}
+		r.Check(okPair, key, fd.Pos(), `retried := GetInt("retried") + 1; Set("retried", retried)`, "OnRetry no longer increments the call's `retried` item by exactly one and stores it back: the budget `retried < retry` is never reached (endless retries) or skipped")
 	}
 	ruleG1bRetry(r)
 }
@@ -739,7 +754,21 @@ func ruleP7(r *Run) {
 					return true
 				}
 				parents := parentMap(fl.Body)
+				// the pool bookkeeping may live in a helper method the literal calls: look there too
+				roots := []ast.Node{fl.Body}
 				ast.Inspect(fl.Body, func(k ast.Node) bool {
+					if c, ok := k.(*ast.CallExpr); ok {
+						if d, dpkg := p.calleeDecl(info, c); d != nil && dpkg.TypesInfo == info {
+							roots = append(roots, d.Body)
+							for kk, vv := range parentMap(d.Body) {
+								parents[kk] = vv
+							}
+						}
+					}
+					return true
+				})
+				for _, root := range roots {
+				ast.Inspect(root, func(k ast.Node) bool {
 					if c, ok := k.(*ast.CallExpr); ok {
 						if IsBuiltin(info, c, "delete") && len(c.Args) == 2 {
 							if fv := fieldOf(info, c.Args[0]); fv != nil && fv.Name() == "conns" {
@@ -751,7 +780,7 @@ func ruleP7(r *Run) {
 									}
 									for _, side := range [][2]ast.Expr{{be.X, be.Y}, {be.Y, be.X}} {
 										if ie, isI := ast.Unparen(side[0]).(*ast.IndexExpr); isI && fieldOf(info, ie.X) == fv {
-											if o := identObj(info, side[1]); o != nil && o.Name() == "conn" {
+											if o := identObj(info, side[1]); o != nil && (o.Name() == "conn" || strings.HasSuffix(o.Type().String(), ".conn")) {
 												guarded = true
 											}
 										}
@@ -780,6 +809,7 @@ func ruleP7(r *Run) {
 					}
 					return true
 				})
+				}
 				return true
 			})
 			r.Check(del && cancel, tr+".Transport.getConn onExit removes the connection and cancels its loops", fd.Pos(), "delete(trans.conns, key); cancel()", "the connection's onExit no longer removes it from the pool and cancels its context: a dead connection is handed to later calls, or its goroutines never end")
